@@ -420,9 +420,9 @@ def r05_3(run):
     for dn in disp:
         okv = any(g.edge_dominates(tn, lab, dn) for tn, lab in test_of(ver, 5))
         okr = any(g.edge_dominates(tn, lab, dn) for tn, lab in test_of(rep, 0))
-        run.ob('R05.3', pr, dn.ast, 'address parsing only for version 5', okv, slot='gate-version', message='reply parsed as success without version == 5')
+        run.ob('R05.3', pr, dn.ast, 'address parsing only for version 5', okv, slot='gate-version', message='reply parsed as success without version == 5', absence=True)
         run.ob('R05.3', pr, dn.ast, 'address parsing only for REP == succeeded', okr, slot='gate-success',
-               message='address parsers (which create the application connection) are reachable for a non-success reply code')
+               message='address parsers (which create the application connection) are reachable for a non-success reply code', absence=True)
     # the address-type field is examined only after the reply code said "succeeded"
     for n in g.real_nodes():
         if n.kind == 'stmt' and n.ast is unp:
@@ -431,11 +431,16 @@ def r05_3(run):
             okr = any(g.edge_dominates(tn, lab, n) for tn, lab in test_of(rep, 0))
             run.ob('R05.3', pr, n.ast, 'ATYP consulted only for a success reply', okr, slot='atyp-after-rep',
                    message='the address type is examined before the reply code: a failure reply with an unknown '
-                           'address type is reported as "unexpected response type" and loses its error code')
+                           'address type is reported as "unexpected response type" and loses its error code', absence=True)
     # error mapping: reply_error(_create_socks_error(<REP>))
     hits = 0
+    pr_defs = local_defs(pr)
     for c in calls_in(pr, 'self.reply_error'):
         a = c.args[0] if c.args else None
+        if isinstance(a, ast.Name):
+            # the error built a statement earlier: any definition of that local that is _create_socks_error(...)
+            cand = [d[1] for d in pr_defs.get(a.id, []) if d[0] == 'expr' and isinstance(d[1], ast.Call) and dotted(d[1].func) == '_create_socks_error']
+            a = cand[0] if cand else a
         if isinstance(a, ast.Call) and dotted(a.func) == '_create_socks_error':
             hits += 1
             run.ob('R05.3', pr, c, 'error built from the reply code field', a.args and dotted(a.args[0]) == rep, slot='error-from-rep',
